@@ -25,17 +25,18 @@ func c14HasPrefix(s, p string) bool {
 // one location with 0..2 hosts and 0..2 prefixes (symbolic strings), symbolic request host / URI
 func Harness_C14_match() {
 	var hosts, prefixes []string
+	t := verifTier() // thorough: one byte more on every string
 	nh := verifChoice("nHosts", 3)
 	for i := 0; i < nh; i++ {
-		hosts = append(hosts, verifString("host", 2))
+		hosts = append(hosts, verifString("host", 2+t))
 	}
 	np := verifChoice("nPrefixes", 3)
 	for i := 0; i < np; i++ {
-		prefixes = append(prefixes, verifString("prefix", 2))
+		prefixes = append(prefixes, verifString("prefix", 2+t))
 	}
 	l := &Location{Name: "l", Hosts: hosts, Prefixes: prefixes}
-	reqHost := verifString("reqHost", 3)
-	reqURI := verifString("reqURI", 3)
+	reqHost := verifString("reqHost", 3+t)
+	reqURI := verifString("reqURI", 3+t)
 	got := l.Match(reqHost, reqURI)
 	hostOK := len(hosts) == 0
 	for _, h := range hosts {
